@@ -41,6 +41,7 @@ func (g *Gen) registerBase() {
 	g.add("bridge", g.genBridge)
 	g.add("bridge_receive", g.genBridgeReceive)
 	g.add("bridge_receive_bound", g.genBridgeReceiveBound)
+	g.add("mint_replay", g.genMintReplay)
 	g.add("allowlist", g.genAllowlist)
 	g.add("class_creator", g.genClassCreator)
 	g.add("class_fee", g.genClassFee)
@@ -267,9 +268,21 @@ func ethAddr(n int) string {
 }
 
 func (g *Gen) originTx(classID string, forBridge bool) *basetypes.OriginTx {
-	// replay a used origin tx with some probability
+	// replay a used origin tx with some probability, preferably one consumed in the SAME class
+	// (the exactly-once key is per class)
 	if len(g.usedOrigin) > 0 && g.chance(0.35) {
 		u := g.usedOrigin[g.R.Intn(len(g.usedOrigin))]
+		if g.chance(0.8) {
+			var same []originRef
+			for _, x := range g.usedOrigin {
+				if x.ClassID == classID {
+					same = append(same, x)
+				}
+			}
+			if len(same) > 0 {
+				u = same[g.R.Intn(len(same))]
+			}
+		}
 		src := u.Source
 		if g.chance(0.3) {
 			src = sources[g.R.Intn(len(sources))]
@@ -896,5 +909,68 @@ func (g *Gen) genBridgeReceiveBound() *eng.Tx {
 	return tx(&basetypes.MsgBridgeReceive{Issuer: issuer, ClassId: cl.Id,
 		Project:  &basetypes.MsgBridgeReceive_Project{ReferenceId: "BR-bound", Jurisdiction: "US", Metadata: "pm"},
 		Batch:    &basetypes.MsgBridgeReceive_Batch{Recipient: g.recipient(), Amount: g.issueAmount(), StartDate: &s, EndDate: &e, Metadata: "bm"},
-		OriginTx: &basetypes.OriginTx{Id: ethHash(5000 + g.R.Intn(100000)), Source: src, Contract: bc.Contract}})
+		OriginTx: g.boundOrigin(cl.Id, src, bc.Contract)})
+}
+
+// boundOrigin: a fresh origin transaction, or (replay) one that was already consumed in this class,
+// with exactly the same id and source string.
+func (g *Gen) boundOrigin(classID, src, contract string) *basetypes.OriginTx {
+	if g.chance(0.35) {
+		var same []originRef
+		for _, x := range g.usedOrigin {
+			if x.ClassID == classID && strings.HasPrefix(x.ID, "0x") {
+				same = append(same, x)
+			}
+		}
+		if len(same) > 0 {
+			u := same[g.R.Intn(len(same))]
+			return &basetypes.OriginTx{Id: u.ID, Source: u.Source, Contract: contract}
+		}
+	}
+	if g.chance(0.4) {
+		src = sources[g.R.Intn(len(sources))] // letter-case variants of chain names
+	}
+	o := &basetypes.OriginTx{Id: ethHash(5000 + g.R.Intn(100000)), Source: src, Contract: contract}
+	g.usedOrigin = append(g.usedOrigin, originRef{classID, o.Id, o.Source})
+	return o
+}
+
+// genMintReplay replays an origin transaction that state says was already consumed in a class — the
+// exact (id, source) pair, or a letter-case variant of the source — through MintBatchCredits on an
+// open batch of that class, signed by the batch issuer with an otherwise valid issuance.
+func (g *Gen) genMintReplay() *eng.Tx {
+	if len(g.V.OriginTxs) == 0 {
+		return nil
+	}
+	o := g.V.OriginTxs[g.R.Intn(len(g.V.OriginTxs))]
+	for i := 0; i < 4; i++ {
+		x := g.V.OriginTxs[g.R.Intn(len(g.V.OriginTxs))]
+		if x.Source != strings.ToLower(x.Source) {
+			o = x
+			break
+		}
+	}
+	var open []*baseapi.Batch
+	for _, b := range g.V.BatchList {
+		if !b.Open {
+			continue
+		}
+		if c := g.V.ClassOfBatch(b); c != nil && c.Key == o.ClassKey {
+			open = append(open, b)
+		}
+	}
+	if len(open) == 0 {
+		return nil
+	}
+	b := open[g.R.Intn(len(open))]
+	src := o.Source
+	switch g.R.Intn(4) {
+	case 0:
+		src = strings.ToLower(src)
+	case 1:
+		src = strings.ToUpper(src)
+	}
+	return tx(&basetypes.MsgMintBatchCredits{Issuer: obs.Addr(b.Issuer), BatchDenom: b.Denom,
+		Issuance: []*basetypes.BatchIssuance{{Recipient: g.actor(), TradableAmount: fmt.Sprintf("%d", 1+g.R.Intn(50))}},
+		OriginTx: &basetypes.OriginTx{Id: o.Id, Source: src}})
 }
